@@ -20,7 +20,7 @@ def prefix(t):
         return "let_value %s %s" % (t["g"], prefix(t["s"]))
     if op == "let_error":
         return "let_error %s %s" % (t["h"], prefix(t["s"]))
-    if op in ("when_all", "when_all_vector"):
+    if op in ("when_all", "when_all_vector", "drop_wa"):
         return "%s %s %s" % (op, prefix(t["a"]), prefix(t["b"]))
     return "%s %s" % (op, prefix(t["s"]))
 
@@ -153,12 +153,16 @@ def run():
             for i, c in enumerate(sub):
                 o = res.get(i + 1)
                 if o is None:
+                    # the runner gives up after 60 restarts: with that many crashes (each one is reported) the
+                    # terms behind the last crash were not evaluated in this pass
+                    if any(r.get("crash") for r in res.values()):
+                        continue
                     raise vlib.ModelFailure("no result for term %s" % prefix(c["term"]))
                 recs.append((c, o))
     # the shared-state adaptors race the predecessor's completion against the consumer's start: repeat
     # the small terms that contain them many times with delays injected at the ss.* hooks
     def shared(t):
-        return t["op"] in ("ensure_started", "split1", "split2", "split2r") or any(shared(t[k]) for k in ("s", "a", "b") if k in t)
+        return t["op"] in ("ensure_started", "split1", "split2", "split2r", "drop_es") or any(shared(t[k]) for k in ("s", "a", "b") if k in t)
 
     def size(t):
         return 1 + sum(size(t[k]) for k in ("s", "a", "b") if k in t)
@@ -168,7 +172,7 @@ def run():
         return [x for k in ("s", "a", "b") if k in t for x in leaves(t[k])]
 
     def joins(t):   # when_all whose inputs can complete concurrently with at least two non-value signals
-        return (t["op"] == "when_all" and sum(1 for x in leaves(t) if x != "just") >= 2) or \
+        return (t["op"] in ("when_all", "drop_wa") and sum(1 for x in leaves(t) if x != "just") >= 2) or \
             (t["op"] == "when_all_vector" and sum(1 for x in leaves(t) if x != "just") >= 1) or \
             any(joins(t[k]) for k in ("s", "a", "b") if k in t)
     racy = [c for c in cases if (shared(c["term"]) or joins(c["term"])) and size(c["term"]) <= 3]
@@ -186,6 +190,8 @@ def run():
         for i, c in enumerate(sub):
             o = res.get(i + 1)
             if o is None:
+                if any(r.get("crash") for r in res.values()):
+                    continue    # (restarts exhausted after many reported crashes, see above)
                 raise vlib.ModelFailure("no result for term %s" % prefix(c["term"]))
             recs.append((c, o))
     chk.cov["join_stress_runs"] = len(jstress)
@@ -195,6 +201,8 @@ def run():
         for i, c in enumerate(sub):
             o = res.get(i + 1)
             if o is None:
+                if any(r.get("crash") for r in res.values()):
+                    continue    # (restarts exhausted after many reported crashes, see above)
                 raise vlib.ModelFailure("no result for term %s" % prefix(c["term"]))
             recs.append((c, o))
     chk.cov["shared_state_stress_runs"] = len(stress)
